@@ -28,7 +28,7 @@ RULE = ("histories of 3-8 stepping requests (run-step with one or several consta
 ASSUMPTIONS = ["crash points lie between requests or inside the state write of a request; a crash inside a handler before the write equals 'request lost'",
                "in-process restart (discarding the server object) stands for process loss; a subset uses a real killed child to validate the shortcut",
                "responses compared as parsed JSON, numeric keys as floats"]
-REQUIRED = {"second_crashes": 40, "crash_points": 150, "post_crash_responses_compared": 1000, "torn_write_cases": 40, "servers_started_on_damaged_dir": 40}
+REQUIRED = {"crash_points_of_two_scenario_sessions": 10, "second_crashes": 40, "crash_points": 150, "post_crash_responses_compared": 1000, "torn_write_cases": 40, "servers_started_on_damaged_dir": 40}
 BUDGET_S = {"quick": 115, "thorough": 1800}
 TRUNC = ["0", "1", "outer", "inner", "len-1"]
 
@@ -97,7 +97,12 @@ def make_history(rng, compress):
         elif r < 0.5:
             # the rest of the session streamed (stream-steps runs to the stop time), followed by 1-2 more requests
             reqs.insert(rng.randint(max(1, n - 3), n - 1), ("stream", {"settings": rng.choice([{}, {MG: {SC: {"constants": {"rate": 0.4}}}}])}))
-    return dict(start=start, dt=dt, reqs=reqs, scen=SC, begin=begin)
+    h = dict(start=start, dt=dt, reqs=reqs, scen=SC, begin=begin)
+    if not compress and SC == "base" and rng.random() < 0.3 and not any(k == "rebegin" for (k, _b) in reqs):
+        # a session over two scenarios of the manager, both configured by the begin-session settings
+        h["scens"] = ["base", "alt"]
+        h["begin"] = {MG: {"base": {"constants": {"rate": rng.choice([0.8, 0.35])}}, "alt": {"constants": {"rate": rng.choice([0.6, 0.15]), "cap": 22.0}}}}
+    return h
 
 
 def send(c, iid, req):
@@ -131,13 +136,18 @@ def open_server(tmp, hist, compress):
     return srv.make_server(srv.bptk_factory(start=float(hist["start"]), stop=stop, dt=float(hist["dt"])), state_dir=tmp, compress=compress)
 
 
+counters_two = [0]
+
+
 def start_instances(app, hists):
     from vlib import srv
     c = app.test_client()
     ids = []
     for h in hists:
         iid = json.loads(c.post("/start-instance", json={"timeout": {"hours": 4}}).get_data(as_text=True))["instance_uuid"]
-        body = {"scenario_managers": [srv.MG], "scenarios": [h.get("scen", srv.SC)], "equations": list(srv.EQS_X)}
+        body = {"scenario_managers": [srv.MG], "scenarios": h.get("scens") or [h.get("scen", srv.SC)], "equations": list(srv.EQS_X)}
+        if h.get("scens"):
+            counters_two[0] += 1
         if h.get("begin"):
             body["settings"] = h["begin"]
         c.post("/%s/begin-session" % iid, json=body)
@@ -239,6 +249,8 @@ def run_crash(case, counters):
             except Exception as e:
                 return dict(kind="restart-failed", crash_point=k, error="%s: %s" % (type(e).__name__, str(e)[:200])), nts
             counters["crash_points"] = counters.get("crash_points", 0) + 1
+            if any(h.get("scens") for h in hists):
+                counters["crash_points_of_two_scenario_sessions"] = counters.get("crash_points_of_two_scenario_sessions", 0) + 1
             cB = B.test_client()
             # every second crash point is followed by a SECOND crash two requests later (the recovered server has saved state of its own by then)
             k2 = k + 2 if (k % 2 == 0 and k + 2 < len(order)) else None
